@@ -127,6 +127,50 @@ func (a *amr) cell(addr ssa.Value) ssa.Value {
 	return addr
 }
 
+// deferredOnly: lit is a literal of the helper that is entered only through `defer` statements
+// of the helper itself (or of literals that are themselves deferred-only): its body runs on the
+// caller's goroutine when the helper returns.
+func (a *amr) deferredOnly(lit *ssa.Function) bool {
+	for depth := 0; depth < 4; depth++ {
+		if lit == nil || lit == a.fn {
+			return lit == a.fn && depth > 0
+		}
+		ent := a.entrySites(lit)
+		if len(ent) == 0 {
+			return false
+		}
+		var par *ssa.Function
+		for _, e := range ent {
+			if _, isDefer := e.(*ssa.Defer); !isDefer {
+				return false
+			}
+			if par != nil && par != e.Parent() {
+				return false
+			}
+			par = e.Parent()
+		}
+		lit = par
+	}
+	return false
+}
+
+// wgOf resolves the receiver of a WaitGroup method to the wait group it denotes: the cell of
+// a `var wg sync.WaitGroup` (possibly captured), or the allocation a pointer variable
+// `wg := &sync.WaitGroup{}` / `new(sync.WaitGroup)` holds (the variable has one value).
+func (a *amr) wgOf(v ssa.Value) ssa.Value {
+	c := a.cell(v)
+	if _, ok := c.(*ssa.Alloc); ok {
+		return c
+	}
+	rs := a.roots(c)
+	if len(rs) == 1 {
+		if al, ok := rs[0].(*ssa.Alloc); ok {
+			return al
+		}
+	}
+	return c
+}
+
 // entrySites returns the go/call/defer instructions (anywhere in the function family)
 // whose callee value is the literal lit.
 func (a *amr) entrySites(lit *ssa.Function) []ssa.CallInstruction {
@@ -630,7 +674,7 @@ func ruleAMR(r *Run) {
 	}
 	var wgCell ssa.Value
 	if len(wgWait) == 1 {
-		wgCell = a.cell(wgWait[0].Common().Args[0])
+		wgCell = a.wgOf(wgWait[0].Common().Args[0])
 	}
 	if wgCell == nil {
 		a.bad("A6", "wait-sites", nil, fmt.Sprintf("%d calls of WaitGroup.Wait; exactly one is required", len(wgWait)))
@@ -638,7 +682,7 @@ func ruleAMR(r *Run) {
 	}
 	isDone := func(i ssa.Instruction) bool {
 		for _, d := range wgDone {
-			if ssa.Instruction(d) == i && a.cell(d.Common().Args[0]) == wgCell {
+			if ssa.Instruction(d) == i && a.wgOf(d.Common().Args[0]) == wgCell {
 				return true
 			}
 		}
@@ -937,6 +981,10 @@ func ruleAMR(r *Run) {
 			a.bad("A9", "close-unknown", c, "close of a channel that is not one of the helper's own")
 			continue
 		}
+		if c.Parent() != fn && a.deferredOnly(c.Parent()) {
+			a.ok("A9", "deferred-close", c, "inside a literal that only runs as a deferred call of the helper: after Wait and the done handshake (A6, A7)")
+			continue
+		}
 		if c.Parent() != fn {
 			a.bad("A9", "close-in-goroutine", c, "a helper channel is closed by a goroutine other than the caller")
 			continue
@@ -1151,7 +1199,7 @@ func (a *amr) checkItemArg(S, G ssa.CallInstruction, lp *payloadLoop, loop map[*
 				}
 				return false, "indexes something other than payload[loop index]"
 			}
-			if al, ok := ld.X.(*ssa.Alloc); ok {
+			if al, ok := a.cell(ld.X).(*ssa.Alloc); ok && al.Parent() == a.fn {
 				if !loop[al.Block()] {
 					return false, "reads a variable shared by all iterations"
 				}
@@ -1244,7 +1292,7 @@ func (a *amr) checkAdd(adds []ssa.CallInstruction, wgCell ssa.Value, G, Gr ssa.C
 	}
 	add := adds[0]
 	c := add.Common()
-	if a.cell(c.Args[0]) != wgCell {
+	if a.wgOf(c.Args[0]) != wgCell {
 		a.bad("A5", "add-other-wg", add, "Add is called on a different WaitGroup than Wait")
 		return
 	}
@@ -1421,8 +1469,26 @@ func (a *amr) underEmptyErrs(ret *ssa.Return, errsCell *ssa.Alloc) bool {
 			ld, ok := unwrap(c.Call.Args[0]).(*ssa.UnOp)
 			return ok && ld.Op == token.MUL && a.cell(ld.X) == ssa.Value(errsCell)
 		}
+		// errs == nil / errs != nil: a nil list is an empty list
+		errsIsNil := func() bool {
+			for _, pr := range [][2]ssa.Value{{bo.X, bo.Y}, {bo.Y, bo.X}} {
+				ld, ok := unwrap(pr[0]).(*ssa.UnOp)
+				if ok && ld.Op == token.MUL && a.cell(ld.X) == ssa.Value(errsCell) && isNilConst(unwrap(pr[1])) {
+					return true
+				}
+			}
+			return false
+		}
 		var emptySide *ssa.BasicBlock
 		switch {
+		case errsIsNil() && bo.Op == token.NEQ:
+			emptySide = iff.Block().Succs[1]
+		case errsIsNil() && bo.Op == token.EQL:
+			emptySide = iff.Block().Succs[0]
+		case lenOfErrs(bo.Y) && isIntConst(bo.X, 0) && (bo.Op == token.LSS || bo.Op == token.NEQ):
+			emptySide = iff.Block().Succs[1]
+		case lenOfErrs(bo.Y) && isIntConst(bo.X, 0) && bo.Op == token.EQL:
+			emptySide = iff.Block().Succs[0]
 		case lenOfErrs(bo.X) && isIntConst(bo.Y, 0) && (bo.Op == token.GTR || bo.Op == token.NEQ):
 			emptySide = iff.Block().Succs[1]
 		case lenOfErrs(bo.X) && isIntConst(bo.Y, 0) && bo.Op == token.EQL:
